@@ -77,7 +77,8 @@ Proof.
   destruct (p h) eqn:E.
   - rewrite !thtasks_cons, !tdtasks_cons, IH1, IH2. auto.
   - rewrite !thtasks_cons, !tdtasks_cons, IH1, IH2.
-    destruct h; cbn; auto; rewrite (Hp _ eq_refl) in E; discriminate.
+    destruct h; cbn; auto;
+      match type of E with p ?h = false => rewrite (Hp h eq_refl) in E end; discriminate.
 Qed.
 
 Lemma timer_filter_task tm h : task_handle h = true -> negb (is_timer_handle tm h) = true.
@@ -117,6 +118,14 @@ Proof.
   induction x as [|a x IH]; [auto|]. intros H. apply IH. cbn in H. eapply NoDup_remove_1. exact H.
 Qed.
 
+Lemma NoDup_snoc {A} (l : list A) x : NoDup l -> ~ In x l -> NoDup (l ++ [x]).
+Proof.
+  induction l as [|a l IH]; cbn; intros Hn Hx; [constructor; [auto|constructor]|].
+  inversion Hn as [|? ? Ha Hl]; subst. constructor.
+  - rewrite in_app_iff. cbn. intros [H|[H|[]]]; [auto|]. apply Hx. auto.
+  - apply IH; auto.
+Qed.
+
 (* ---------------- projections through the kernel functions ---------------- *)
 Lemma fc_tasks s f v : tasks (fut_complete s f v) = tasks s.
 Proof.
@@ -150,7 +159,7 @@ Proof.
   unfold fut_complete. destruct (f_st (futs s f)) eqn:E.
   2-4: left; split; [congruence|reflexivity].
   right. split; [reflexivity|].
-  destruct (f_waiter (futs s f)); cbn; rewrite ?app_nil_r; auto.
+  destruct (f_waiter (futs s f)) eqn:Ew; cbn; rewrite ?Ew, ?app_nil_r; auto.
 Qed.
 
 Lemma refd_ext s s' :
@@ -188,12 +197,9 @@ Proof.
   - specialize (Hw Hp w eq_refl).
     destruct (k_w1 s K w f Hw) as [_ [Hd [Hrun [Hal Hlt]]]].
     assert (Hnw : ~ In w (thtasks (ready s))) by (eapply k_pend; eauto).
-    constructor; rewrite ?fc_tasks, ?fc_running, ?fc_ntask, ?fc_nfut, ?Er.
-    + rewrite thtasks_app. cbn. apply NoDup_app_remove_mid with (x := []). cbn.
-      rewrite <- (app_nil_r (thtasks (ready s) ++ [w])), <- app_assoc. cbn.
-      apply NoDup_app_remove_mid with (x := []). cbn. rewrite app_nil_r.
-      apply NoDup_rev_snoc; auto.
-    + rewrite tdtasks_app. cbn. rewrite app_nil_r. apply K.
+    constructor; unfold alloc; rewrite ?fc_tasks, ?fc_running, ?fc_ntask, ?fc_nfut, ?Er.
+    + rewrite thtasks_app. change (thtasks [HWake w f]) with [w]. apply NoDup_snoc; [apply K|exact Hnw].
+    + rewrite tdtasks_app. change (tdtasks [HWake w f]) with (@nil tid). rewrite app_nil_r. apply K.
     + intros t f0. rewrite in_app_iff. intros [H|[H|[]]].
       * destruct (k_wake s K t f0 H) as [H1 H2]. split; [exact H1|]. apply Hnp, H2.
       * injection H as <- <-. split; [exact Hw|]. rewrite Ef, upd_same. exact Hv.
@@ -208,7 +214,7 @@ Proof.
       intros Hp0 t. rewrite Hfw. destruct (Hst _ Hp0) as [Hp1 _]. auto.
     + intros t f0 H1 H2 Hx. apply Hrefd in Hx. eapply k_idle; eauto.
   - rewrite app_nil_r in Er.
-    constructor; rewrite ?fc_tasks, ?fc_running, ?fc_ntask, ?fc_nfut, ?Er; try apply K.
+    constructor; unfold alloc; rewrite ?fc_tasks, ?fc_running, ?fc_ntask, ?fc_nfut, ?Er; try apply K.
     + intros t f0 H. destruct (k_wake s K t f0 H) as [H1 H2]. split; [exact H1|]. apply Hnp, H2.
     + intros t f0 H. rewrite Hfw. apply (k_w1 s K t f0 H).
     + intros t f0 H Hp0. destruct (Hst _ Hp0) as [Hp1 Hne]. eapply k_pend; eauto.
@@ -216,3 +222,115 @@ Proof.
       intros Hp0 t. rewrite Hfw. destruct (Hst _ Hp0) as [Hp1 _]. auto.
     + intros t f0 H1 H2 Hx. apply Hrefd in Hx. eapply k_idle; eauto.
 Qed.
+
+(* ---------------- KInv only looks at a few task fields and at the task/sleep handles ---------------- *)
+Definition kview (k : task) :=
+  (k_waiter k, k_done k, k_tdran k, k_group k, k_ctl k, k_startfut k).
+
+Lemma kview_inv k k' : kview k' = kview k ->
+  k_waiter k' = k_waiter k /\ k_done k' = k_done k /\ k_tdran k' = k_tdran k /\
+  k_group k' = k_group k /\ k_ctl k' = k_ctl k /\ k_startfut k' = k_startfut k.
+Proof. unfold kview. intros H. injection H. tauto. Qed.
+
+Lemma KInv_mono s s' :
+  (forall t, kview (tasks s' t) = kview (tasks s t)) ->
+  futs s' = futs s -> nfut s' = nfut s -> ntask s' = ntask s -> running s' = running s ->
+  events s' = events s -> groups s' = groups s ->
+  thtasks (ready s') = thtasks (ready s) -> tdtasks (ready s') = tdtasks (ready s) ->
+  (forall h, task_handle h = true -> In h (ready s') -> In h (ready s)) ->
+  (forall f tm, In (HSleepDone f tm) (ready s') -> In (HSleepDone f tm) (ready s)) ->
+  (forall x f, In x (timers s') -> tm_what x = TSleep f -> In x (timers s)) ->
+  KInv s -> KInv s'.
+Proof.
+  intros Hv Hf Hnf Hnt Hr He Hg Hth Htd Hh Hsl Htm K.
+  assert (V : forall t, k_waiter (tasks s' t) = k_waiter (tasks s t) /\ k_done (tasks s' t) = k_done (tasks s t) /\
+                k_tdran (tasks s' t) = k_tdran (tasks s t) /\ k_group (tasks s' t) = k_group (tasks s t) /\
+                k_ctl (tasks s' t) = k_ctl (tasks s t) /\ k_startfut (tasks s' t) = k_startfut (tasks s t)).
+  { intros t. apply kview_inv, Hv. }
+  assert (Hrefd : forall x, refd s' x -> refd s x).
+  { intros f [[e H]|[[g H]|[[c H]|[[tm H]|[x [H1 H2]]]]]].
+    - left. exists e. now rewrite <- He.
+    - right; left. exists g. now rewrite <- Hg.
+    - right; right; left. exists c. destruct (V c) as [_ [_ [_ [_ [_ V6]]]]]. now rewrite <- V6.
+    - right; right; right. left. exists tm. auto.
+    - right; right; right. right. exists x. eauto. }
+  constructor; unfold alloc; rewrite ?Hth, ?Htd, ?Hf, ?Hnf, ?Hnt, ?Hr.
+  - apply K.
+  - apply K.
+  - intros t f H. apply (Hh (HWake t f) eq_refl) in H. destruct (V t) as [-> _]. apply (k_wake s K t f H).
+  - intros t H. apply (Hh (HStep t) eq_refl) in H. destruct (V t) as [-> [-> _]]. apply (k_step s K t H).
+  - intros t f. destruct (V t) as [-> [-> _]]. apply (k_w1 s K t f).
+  - intros t f. destruct (V t) as [-> _]. apply (k_pend s K t f).
+  - intros t. destruct (V t) as [_ [-> _]]. apply (k_run s K t).
+  - intros t H. apply (Hh (HTaskDone t) eq_refl) in H. destruct (V t) as [_ [-> [-> [-> _]]]]. apply (k_td s K t H).
+  - intros f Hx. apply Hrefd in Hx. destruct (k_ref s K f Hx) as [H1 H2]. split; [exact H1|].
+    intros Hp t Hw. destruct (V t) as [-> _]. auto.
+  - intros t f. destruct (V t) as [-> [_ [_ [_ [-> _]]]]]. intros H1 H2 Hx. apply Hrefd in Hx.
+    eapply k_idle; eauto.
+Qed.
+
+Lemma upd_task_kview s t g :
+  (forall k, kview (g k) = kview k) -> forall x, kview (tasks (upd_task s t g) x) = kview (tasks s x).
+Proof.
+  intros Hg x. cbn [upd_task set_tasks tasks]. unfold upd.
+  destruct (Nat.eqb_spec x t); [subst; apply Hg|reflexivity].
+Qed.
+
+Lemma irrel_kview g : tk_irrel g -> forall k, kview (g k) = kview k.
+Proof.
+  intros H k. destruct (H k) as [H1 [H2 [H3 [H4 [H5 [H6 [H7 [H8 [H9 [H10 [H11 H12]]]]]]]]]]].
+  unfold kview. congruence.
+Qed.
+
+Lemma K_upd_task_irrel s t g : (forall k, kview (g k) = kview k) -> KInv s -> KInv (upd_task s t g).
+Proof.
+  intros Hg. apply KInv_mono; try reflexivity; auto.
+  apply upd_task_kview, Hg.
+Qed.
+
+Lemma K_upd_scope s c g : KInv s -> KInv (upd_scope s c g).
+Proof. apply KInv_mono; try reflexivity; auto. Qed.
+
+Lemma K_set_scopes s v : KInv s -> KInv (set_scopes s v).
+Proof. apply KInv_mono; try reflexivity; auto. Qed.
+
+Lemma K_task_cancel s t o : KInv s -> KInv (task_cancel s t o).
+Proof.
+  intros K. unfold task_cancel. destruct (k_done (tasks s t)) eqn:Ed; [exact K|].
+  set (s1 := upd_task s t (tk_ncancel (S (k_ncancel (tasks s t))))).
+  assert (K1 : KInv s1) by (apply K_upd_task_irrel; [intros k; reflexivity|exact K]).
+  destruct (k_waiter (tasks s t)) as [f|] eqn:Ew.
+  - destruct (fut_pending s1 f) eqn:Ep.
+    + apply K_fut_complete; [exact K1|discriminate|].
+      intros _ t' Ht'. destruct (k_w1 s K t f Ew) as [Hfw _].
+      change (futs s1) with (futs s) in Ht'. rewrite Hfw in Ht'. injection Ht' as <-.
+      unfold s1. cbn [upd_task set_tasks tasks]. rewrite upd_same. cbn. exact Ew.
+    + apply K_upd_task_irrel; [intros k; reflexivity|exact K1].
+  - apply K_upd_task_irrel; [intros k; reflexivity|exact K1].
+Qed.
+
+Lemma K_kprim C T s s' : kprim C T s s' -> KInv s -> KInv s'.
+Proof.
+  intros H K. destruct H.
+  - apply K_upd_scope, K.
+  - apply K_task_cancel, K.
+  - apply K_upd_task_irrel; [apply irrel_kview; assumption|exact K].
+  - revert K. apply KInv_mono; try reflexivity; cbn [call_soon set_ready ready].
+    + rewrite thtasks_app. cbn. now rewrite app_nil_r.
+    + rewrite tdtasks_app. cbn. now rewrite app_nil_r.
+    + intros h Hh. rewrite in_app_iff. intros [Hi|[<-|[]]]; [exact Hi|discriminate].
+    + intros f tm. rewrite in_app_iff. intros [Hi|[Hi|[]]]; [exact Hi|discriminate].
+    + auto.
+  - revert K. apply KInv_mono; try reflexivity; cbn [timer_cancel set_ready set_timers ready timers].
+    + apply thtasks_filter. intros h. apply timer_filter_task.
+    + apply thtasks_filter. intros h. apply timer_filter_task.
+    + intros h _ Hi. apply filter_In in Hi. tauto.
+    + intros f tm' Hi. apply filter_In in Hi. tauto.
+    + intros x f Hi _. apply filter_In in Hi. tauto.
+  - revert K. apply KInv_mono; try reflexivity; cbn [call_at fst timers]; auto.
+    intros x f. rewrite in_app_iff. intros [Hi|[<-|[]]]; [auto|]. cbn. discriminate.
+  - apply K_upd_task_irrel; [intros k; reflexivity|exact K].
+Qed.
+
+Lemma K_kstar C T s s' : kstar C T s s' -> KInv s -> KInv s'.
+Proof. induction 1; [auto|]. intros K. eapply K_kprim; eauto. Qed.
